@@ -4,11 +4,3 @@ NOTES = ("Every check = tools/vcheck <id>: regenerate UmGen tables from /repo/sr
          "module and audit #print axioms, rebuild the harness against /repo's working tree, run corpus + generated "
          "correspondence streams (real code vs compiled Lean model), decide, write evidence. See DESIGN.md.")
 NOT_CLAIMED = {}
-CHECKS = {
-    "C19": {
-        "text": "Proved for all PTTL replies n in [0, i64::MAX], -1 and -2 and every payload, on both transfer-path models (scan/UMSYNC and pull): RESTORE ttl t satisfies 1 <= t <= max(n,1); persistent stays persistent; missing keys are not restored. The model is tied to the code by generated constants and by running the real pttl_to_restore_expire_time against the Lean model on boundary/structured/random byte strings every run.",
-        "design_ref": "§6 C19",
-        "note": "Trusted: Lean kernel; btoi grammar transliteration (checked differentially); Redis PTTL/RESTORE semantics as stated; path models (produce_entries/get_data_entry reply matching) are hand-written.",
-        "technique": "Lean 4 theorem over all i64 PTTL values + differential correspondence (real fn vs model)",
-    },
-}
